@@ -97,9 +97,9 @@ package crypto
 
 // ---- Multi: signer lists of multi-signatures. Size counts entries; with pairwise distinct
 // signers (which Sign and Combine establish) it is the number of distinct signers.
-//@ pred mnonnil(s Multi[*ECDSASignature]) = forall i int :: 0 <= i && i < len(s) ==> s[i] != nil
-//@ pred mdistinct(s Multi[*ECDSASignature]) = forall i int, j int :: 0 <= i && i < j && j < len(s) ==> s[i].signer != s[j].signer
-//@ pure func mmem(s Multi[*ECDSASignature], x hotstuff.ID) bool = exists i int :: 0 <= i && i < len(s) && s[i].signer == x
+//@ pred mnonnil(s Multi[*ECDSASignature]) = forall i int :: {s[i]} 0 <= i && i < len(s) ==> s[i] != nil
+//@ pred mdistinct(s Multi[*ECDSASignature]) = forall i int, j int :: {s[i], s[j]} 0 <= i && i < j && j < len(s) ==> s[i].signer != s[j].signer
+//@ pure func mmem(s Multi[*ECDSASignature], x hotstuff.ID) bool = exists i int :: {s[i]} 0 <= i && i < len(s) && s[i].signer == x
 
 //@ func (Multi[*ECDSASignature]).Contains property C19
 //@   requires mnonnil(sig)
